@@ -25,7 +25,8 @@
 (*   [op |-> "sstore", k, v]  [op |-> "sload", k]  [op |-> "tstore", k, v]   *)
 (*   [op |-> "tload", k]  [op |-> "log", t]  [op |-> "env"]  [op |-> "bal", a]*)
 (*   [op |-> "call", kind, to, value, prog]    kind: "call"|"static"|"delegate"*)
-(*   [op |-> "create", value]  [op |-> "create2", salt, value]               *)
+(*   [op |-> "create", value, init]  [op |-> "create2", salt, value, init]   *)
+(*                       init: "plain" | "store" (constructor writes)      *)
 (*   [op |-> "destroy", ben]  [op |-> "revert"]  [op |-> "return"]           *)
 (*   [op |-> "invalid"]                                                    *)
 (* evaluated by plain recursion: Exec returns [r, W, obs] with              *)
@@ -46,6 +47,11 @@ None == <<"none">>
 User == <<"u">>
 Zeros == [k \in Keys |-> 0]
 Fresh(cid) == [st |-> Zeros, ts |-> Zeros, nonce |-> 1, tomb |-> 0, hc |-> TRUE, cid |-> cid]
+\* a child whose constructor (init kind "store") wrote storage slot 0 := 3 and transient slot 1 := 2
+\* before returning the code
+Born(init) == IF init = "store"
+              THEN [Fresh(9) EXCEPT !.st = [Zeros EXCEPT ![0] = 3], !.ts = [Zeros EXCEPT ![1] = 2]]
+              ELSE Fresh(9)
 ChildCid == 9
 
 Put(f, k, v) == [x \in DOMAIN f \cup {k} |-> IF x = k THEN v ELSE f[x]]
@@ -97,7 +103,7 @@ Exec(w, x, p, i) ==
                   nm == IF o.op = "create" THEN <<"c1", x.self, n>> ELSE <<"c2", x.self, o.salt>>
                   w1 == [w EXCEPT !.con[x.self].nonce = n + 1]
               IN  IF IsCon(w1, nm) /\ ~Dead(w1, nm) THEN Go(w1, << <<"new", None>> >>)
-                  ELSE Go(Transfer([w1 EXCEPT !.con = Put(@, nm, Fresh(ChildCid))], x.self, nm, o.value),
+                  ELSE Go(Transfer([w1 EXCEPT !.con = Put(@, nm, Born(o.init))], x.self, nm, o.value),
                           << <<"new", nm>> >>)
     [] o.op = "call" ->
          IF o.kind = "delegate" THEN
